@@ -3,7 +3,7 @@ registered through connection.register_connection(session=...), and the in-memor
 (harness/replay/cql_interp.py: Cassandra's semantics for the CQL subset cqlengine emits).
 
     k int (partition key), ck int (clustering key), a int stored as "aa", b int, st int STATIC,
-    s set<int>, l list<int>, m map<int,int>
+    s set<int>, l list<int>, m map<int,int>      (the check itself uses timestamp elements)
 """
 import os
 import sys
@@ -17,7 +17,7 @@ warnings.simplefilter("ignore")
 
 
 def harness():
-    h = M.RowHarness("row")
+    h = M.RowHarness("row", plain_elements=True)       # the reproductions write collections of plain integers
     return h, h.R
 
 
